@@ -205,6 +205,17 @@ Theorem C02_tun_failure_loses_the_step : forall st l,
 Proof. exact tun_failure_loses_the_step. Qed.
 Print Assumptions C02_tun_failure_loses_the_step.
 
+(* UAPI reconfiguration naming peers to remove: each of them is marked gone,
+   owns no allowed-IP entry of the new table, and retains no keypair. *)
+Theorem C02_reconf_removes : forall st tbl rm p,
+  In p rm ->
+  is_gone (fst (step st (Reconf tbl rm))) p = true /\
+  (forall e, In e (s_tbl (fst (step st (Reconf tbl rm)))) -> e_owner e <> p) /\
+  (forall q, nth_error (s_peers (fst (step st (Reconf tbl rm)))) (N.to_nat p) = Some q ->
+             k_prev q = None /\ k_cur q = None /\ k_next q = None).
+Proof. exact reconf_removes. Qed.
+Print Assumptions C02_reconf_removes.
+
 (* ------------------------------------------------------------------ non-vacuity *)
 
 (* 28 bytes received, IPv4 header declaring 24 *)
@@ -303,4 +314,13 @@ Example C02_trace_tunfail :
      Dgrams [Transport 77 1 false 1 c02_pkt; Transport 77 1 false 2 c02_pkt]]
   = [ []; [ {| r_write := None; r_rx := Some (0, 60) |} ];
       [ nothing; {| r_write := Some (0, firstn 24 c02_pkt); r_rx := Some (0, 60) |} ] ].
+Proof. vm_compute. reflexivity. Qed.
+
+(* reconfiguration removing peer 0 (the new table still names it: filtered out):
+   nothing under its old key is accepted, a later handshake installs nothing *)
+Example C02_trace_reconf :
+  outs step c02_init
+    [Handshake 0 77 1; Reconf (s_tbl c02_init) [0]; Handshake 0 88 2;
+     Dgrams [Transport 77 1 false 1 c02_pkt; Transport 88 2 false 1 c02_pkt]]
+  = [ []; []; []; [nothing; nothing] ].
 Proof. vm_compute. reflexivity. Qed.
